@@ -41,11 +41,14 @@ Lemma refs_render s :
   (orefs_list (k_anyOf s) ++ oref (k_ref s) ++ orefs_dict (k_defs s) ++ orefs_dict (k_props s)
    ++ orefs (k_addl s) ++ orefs (k_pnames s) ++ orefs_list (k_prefix s) ++ orefs (k_items s))%list.
 Proof.
-  destruct s as [sc tp ti ao rf df dv pr ad pn pf it ma mi un rq]. unfold render.
-  cbn [k_schema k_type k_title k_anyOf k_ref k_defs k_default k_props k_addl k_pnames k_prefix k_items k_maxItems k_minItems k_unique k_required].
+  destruct s as [sc tp en cn fm ti de ao rf df dv pr ad pn pf it pa ma mi un rq]. unfold render.
+  cbn [k_schema k_type k_enum k_const k_format k_title k_description k_anyOf k_ref k_defs k_default k_props k_addl k_pnames k_prefix k_items k_pattern k_maxItems k_minItems k_unique k_required].
   repeat rewrite refs_app.
   rewrite (refs_data "$schema") by reflexivity. rewrite (refs_data "type") by reflexivity.
   rewrite (refs_data "title") by reflexivity. rewrite (refs_data "default") by reflexivity.
+  rewrite (refs_data "enum") by reflexivity. rewrite (refs_data "const") by reflexivity.
+  rewrite (refs_data "format") by reflexivity. rewrite (refs_data "description") by reflexivity.
+  rewrite (refs_data "pattern") by reflexivity.
   rewrite (refs_data "maxItems") by reflexivity. rewrite (refs_data "minItems") by reflexivity.
   rewrite (refs_data "uniqueItems") by reflexivity. rewrite (refs_data "required") by reflexivity.
   simpl. rewrite !app_nil_r.
@@ -115,6 +118,13 @@ Section RefsInstance.
     rewrite app_nil_r in Hr.
     apply (in_refs_dict r (p :: ps)) in Hr. destruct Hr as [k [d [H1 H2]]]. eapply H; eauto.
   Qed.
+  Lemma R_leaf ks tp fmt pat :
+    is_type_name tp = true -> match fmt with Some f => str_mem f formats | None => true end = true -> G ks (render (leaf_sk tp fmt pat)).
+  Proof. intros _ _ r Hr. rewrite refs_render in Hr. simpl in Hr. contradiction. Qed.
+  Lemma R_enum ks lit vals : G ks (render (enum_sk lit vals)).
+  Proof. intros r Hr. rewrite refs_render in Hr. destruct lit; [destruct vals as [|v [|w l]]|]; simpl in Hr; contradiction. Qed.
+  Lemma R_descr ks s d : G ks (render s) -> G ks (render (set_description s d)).
+  Proof. intros H r Hr. apply H. rewrite refs_render in *. destruct d as [[|c d']|]; exact Hr. Qed.
   Lemma R_ntobj ks props req :
     (forall k d, In (k, d) props -> G ks d) -> NoDup req -> G ks (render (ntobj_sk props req)).
   Proof.
@@ -151,8 +161,9 @@ Theorem refs_closed_seq E cfg fuel ts st ds st' :
   defs_closed cfg.(c_prefix) st' /\ Forall (refs_ok cfg.(c_prefix) (keys st')) ds /\ incl (keys st) (keys st').
 Proof.
   intros Hn Hb Hc.
-  eapply (build_seq_inv E cfg (refs_ok cfg.(c_prefix))); eauto using R_mono, R_ty, R_any, R_arr, R_dict, R_tuple,
-    R_union, R_ref, R_obj, R_ntobj, R_default, R_defs, R_schema.
+  eapply (build_seq_inv E cfg (refs_ok cfg.(c_prefix)) (R_mono _) (fun ks s => refs_ok cfg.(c_prefix) ks (render s)) (fun _ _ H => H)
+                        (fun ks ks' s Hi H => R_mono _ ks ks' _ Hi H)); eauto using R_mono, R_ty, R_any, R_arr, R_dict, R_tuple,
+    R_union, R_ref, R_obj, R_leaf, R_enum, R_descr, R_ntobj, R_default, R_defs, R_schema.
 Qed.
 
 Theorem refs_closed_build E cfg fuel wd uri t st d st' :
@@ -161,8 +172,9 @@ Theorem refs_closed_build E cfg fuel wd uri t st d st' :
   defs_closed cfg.(c_prefix) st' /\ refs_ok cfg.(c_prefix) (keys st') d /\ incl (keys st) (keys st').
 Proof.
   intros Hn Hb Hc.
-  eapply (build_inv E cfg (refs_ok cfg.(c_prefix))); eauto using R_mono, R_ty, R_any, R_arr, R_dict, R_tuple,
-    R_union, R_ref, R_obj, R_ntobj, R_default, R_defs, R_schema.
+  eapply (build_inv E cfg (refs_ok cfg.(c_prefix)) (R_mono _) (fun ks s => refs_ok cfg.(c_prefix) ks (render s)) (fun _ _ H => H)
+                    (fun ks ks' s Hi H => R_mono _ ks ks' _ Hi H)); eauto using R_mono, R_ty, R_any, R_arr, R_dict, R_tuple,
+    R_union, R_ref, R_obj, R_leaf, R_enum, R_descr, R_ntobj, R_default, R_defs, R_schema.
 Qed.
 
 (* without all_refs nothing is registered and no reference is emitted *)
@@ -210,14 +222,19 @@ Lemma meta_render s :
   && match k_minItems s with Some z => (0 <=? z)%Z | None => true end
   && match k_required s with Some l => str_nodup l | None => true end.
 Proof.
-  destruct s as [sc tp ti ao rf df dv pr ad pn pf it ma mi un rq]. unfold render.
-  cbn [k_schema k_type k_title k_anyOf k_ref k_defs k_default k_props k_addl k_pnames k_prefix k_items k_maxItems k_minItems k_unique k_required].
+  destruct s as [sc tp en cn fm ti de ao rf df dv pr ad pn pf it pa ma mi un rq]. unfold render.
+  cbn [k_schema k_type k_enum k_const k_format k_title k_description k_anyOf k_ref k_defs k_default k_props k_addl k_pnames k_prefix k_items k_pattern k_maxItems k_minItems k_unique k_required].
   repeat rewrite meta_app.
   assert (H1: meta_ok (JObj (optkv "$schema" JStr sc)) = true) by (destruct sc; reflexivity).
   assert (H2: meta_ok (JObj (optkv "title" JStr ti)) = true) by (destruct ti; reflexivity).
   assert (H3: meta_ok (JObj (optkv "$ref" JStr rf)) = true) by (destruct rf; reflexivity).
   assert (H4: meta_ok (JObj (optkv "default" (fun d => d) dv)) = true) by (destruct dv; reflexivity).
   assert (H5: meta_ok (JObj (optkv "uniqueItems" JBool un)) = true) by (destruct un; reflexivity).
+  assert (H6: meta_ok (JObj (optkv "enum" JArr en)) = true) by (destruct en; reflexivity).
+  assert (H7: meta_ok (JObj (optkv "const" (fun d => d) cn)) = true) by (destruct cn; reflexivity).
+  assert (H8: meta_ok (JObj (optkv "format" JStr fm)) = true) by (destruct fm; reflexivity).
+  assert (H9: meta_ok (JObj (optkv "description" JStr de)) = true) by (destruct de; reflexivity).
+  assert (H10: meta_ok (JObj (optkv "pattern" JStr pa)) = true) by (destruct pa; reflexivity).
   assert (T: meta_ok (JObj (optkv "type" JStr tp)) = match tp with Some t => is_type_name t | None => true end)
     by (destruct tp; simpl; [rewrite andb_true_r|]; reflexivity).
   assert (A: meta_ok (JObj (optkv "anyOf" JArr ao)) = ometa_list ao) by (destruct ao; [apply meta_arr_list|reflexivity]).
@@ -236,7 +253,7 @@ Proof.
     by (destruct mi; simpl; [rewrite andb_true_r|]; reflexivity).
   assert (RQ: meta_ok (JObj (optkv "required" (fun l => JArr (map JStr l)) rq)) = match rq with Some l => str_nodup l | None => true end)
     by (destruct rq; simpl; [rewrite all_strs_map, andb_true_r|]; reflexivity).
-  rewrite H1, H2, H3, H4, H5, T, A, D, P, AD, PN, PF, IT, MA, MI, RQ.
+  rewrite H1, H2, H3, H4, H5, H6, H7, H8, H9, H10, T, A, D, P, AD, PN, PF, IT, MA, MI, RQ.
   rewrite ?andb_true_l, ?andb_true_r, ?andb_assoc. reflexivity.
 Qed.
 
@@ -299,6 +316,13 @@ Proof.
   { destruct req; [reflexivity|]. apply str_nodup_NoDup. exact Hn. }
   rewrite Hp, Hr. reflexivity.
 Qed.
+Lemma M_leaf ks tp fmt pat :
+  is_type_name tp = true -> match fmt with Some f => str_mem f formats | None => true end = true -> Gm ks (render (leaf_sk tp fmt pat)).
+Proof. intros H _. unfold Gm. rewrite meta_render. simpl. rewrite H. reflexivity. Qed.
+Lemma M_enum ks lit vals : Gm ks (render (enum_sk lit vals)).
+Proof. unfold Gm. rewrite meta_render. destruct lit; [destruct vals as [|v [|w l]]|]; reflexivity. Qed.
+Lemma M_descr ks s d : Gm ks (render s) -> Gm ks (render (set_description s d)).
+Proof. unfold Gm. rewrite !meta_render. destruct d as [[|c d']|]; auto. Qed.
 Lemma M_ntobj ks props req :
   (forall k d, In (k, d) props -> Gm ks d) -> NoDup req -> Gm ks (render (ntobj_sk props req)).
 Proof.
@@ -330,8 +354,9 @@ Theorem meta_seq E cfg fuel ts st ds st' :
   defs_meta st' /\ Forall (fun d => meta_ok d = true) ds.
 Proof.
   intros Hn Hb Hc.
-  destruct (build_seq_inv E cfg Gm M_mono M_ty M_any M_arr M_dict M_tuple M_union
-                          (fun ks c _ => M_ref ks _) M_obj M_ntobj M_default M_defs M_schema Hn fuel ts st ds st' Hb Hc) as (A & B & _).
+  destruct (build_seq_inv E cfg Gm M_mono (fun ks s => Gm ks (render s)) (fun _ _ H => H)
+                          (fun ks ks' s Hi H => M_mono ks ks' _ Hi H) M_ty M_any M_arr M_dict M_tuple M_union
+                          (fun ks c _ => M_ref ks _) M_obj M_leaf M_enum M_descr M_ntobj M_default M_defs M_schema Hn fuel ts st ds st' Hb Hc) as (A & B & _).
   split; assumption.
 Qed.
 
@@ -341,8 +366,9 @@ Theorem meta_build E cfg fuel wd uri t st d st' :
   defs_meta st' /\ meta_ok d = true.
 Proof.
   intros Hn Hb Hc.
-  destruct (build_inv E cfg Gm M_mono M_ty M_any M_arr M_dict M_tuple M_union
-                      (fun ks c _ => M_ref ks _) M_obj M_ntobj M_default M_defs M_schema Hn fuel wd uri t st d st' Hb Hc) as (A & B & _).
+  destruct (build_inv E cfg Gm M_mono (fun ks s => Gm ks (render s)) (fun _ _ H => H)
+                      (fun ks ks' s Hi H => M_mono ks ks' _ Hi H) M_ty M_any M_arr M_dict M_tuple M_union
+                      (fun ks c _ => M_ref ks _) M_obj M_leaf M_enum M_descr M_ntobj M_default M_defs M_schema Hn fuel wd uri t st d st' Hb Hc) as (A & B & _).
   split; assumption.
 Qed.
 
@@ -367,6 +393,11 @@ Proof. simpl. induction ts as [|x r IH]; simpl; [reflexivity|rewrite IH; reflexi
 Lemma ty_ok_named a n ts d :
   ty_ok (TNamed a n ts d) = str_nodup n && Nat.eqb (List.length n) (List.length ts) && forallb ty_ok ts.
 Proof. simpl. f_equal; try reflexivity. all: induction ts as [|x r IH]; simpl; [reflexivity|rewrite IH; reflexivity]. Qed.
+Lemma classes_of_typed n ts r : classes_of (TTyped n ts r) = flat_map classes_of ts.
+Proof. simpl. induction ts as [|x t IH]; simpl; [reflexivity|rewrite IH; reflexivity]. Qed.
+Lemma ty_ok_typed n ts r :
+  ty_ok (TTyped n ts r) = str_nodup n && Nat.eqb (List.length n) (List.length ts) && forallb ty_ok ts.
+Proof. simpl. f_equal; try reflexivity. all: induction ts as [|x t IH]; simpl; [reflexivity|rewrite IH; reflexivity]. Qed.
 Lemma ty_ok_union ts : ty_ok (TUnion ts) = match ts with [] => false | _ => forallb ty_ok ts end.
 Proof. destruct ts as [|t0 tr]; [reflexivity|]. simpl. f_equal; try reflexivity. all: induction tr as [|x r IH]; simpl; [reflexivity|rewrite IH; reflexivity]. Qed.
 
@@ -431,6 +462,12 @@ Section Total.
     - rewrite sf_named. destruct Hr as [Hok Hcl]. rewrite ty_ok_named in Hok. rewrite classes_of_named in Hcl.
       apply andb_true_iff in Hok. destruct Hok as [Hg Hok]. rewrite Hg.
       destruct (map_st_total _ fuel ts H (ready_members fuel ts Hok Hcl) ds st) as [ss [st1 E1]]. rewrite E1. eauto.
+    - rewrite sf_leaf. destruct Hr as [Hok _]. cbn [ty_ok] in Hok. rewrite Hok. eauto.
+    - rewrite sf_enum. eauto.
+    - rewrite sf_typed. destruct Hr as [Hok Hcl]. rewrite ty_ok_typed in Hok. rewrite classes_of_typed in Hcl.
+      apply andb_true_iff in Hok. destruct Hok as [Hg Hok]. rewrite Hg.
+      destruct (map_st_total _ fuel ts H (ready_members fuel ts Hok Hcl) [] st) as [ss [st1 E1]]. rewrite E1. eauto.
+    - destruct Hr as [Hok _]. discriminate.
   Qed.
 
   Theorem total_fuel : forall fuel, total_at (schema_fuel E cfg fuel) fuel.
@@ -450,7 +487,7 @@ End Total.
 (* 4. a self-referencing class: no amount of fuel suffices (defect D10) *)
 
 Definition E_self : ctab :=
-  [("Node", [mkfld "next" (TUnion [TClass "Node"; TNone]) false (Some JNull)])].
+  [("Node", [mkfld "next" (TUnion [TClass "Node"; TNone]) false (Some JNull) None])].
 
 Theorem self_ref_diverges : forall fuel cfg st, schema_fuel E_self cfg fuel (TClass "Node") st = SFuel.
 Proof.
@@ -469,8 +506,8 @@ Qed.
 (* ================================================================== *)
 (* 5. definitions are stored under the bare class name: a second class table entry with the
       same name (another specialisation of a generic class) overwrites the first (KF)      *)
-Definition E_g1 : ctab := [("G", [mkfld "x" (TList TInt) true None])].
-Definition E_g2 : ctab := [("G", [mkfld "x" (TList TStr) true None])].
+Definition E_g1 : ctab := [("G", [mkfld "x" (TList TInt) true None None])].
+Definition E_g2 : ctab := [("G", [mkfld "x" (TList TStr) true None None])].
 Theorem bare_name_overwrites :
   exists d1 st1 d2 st2,
     build E_g1 (mkcfg true "#/$defs") 1 false None (TClass "G") [] = SOk (d1, st1) /\
@@ -487,4 +524,65 @@ Proof.
   destruct (String.eqb k c) eqn:Ek.
   - apply String.eqb_eq in Ek. intros H; inversion H; subst. left; reflexivity.
   - intros H. right. apply IH. exact H.
+Qed.
+
+Lemma digest_fields_spec al om dial conf l f :
+  In f (digest_fields al om dial conf l) ->
+  exists r, In r l /\ r_init r = true /\ digest_field al om dial conf r = Some f /\ f_ty f = resolve_field dial conf r /\
+            f_req f = (match r_def r with RNone => negb (om && nullable_ty (r_ty r)) | _ => false end) /\
+            (f_default f <> None <-> exists v, r_def r = RDefault v).
+Proof.
+  induction l as [|r t IH]; simpl; [contradiction|].
+  destruct (digest_field al om dial conf r) as [g|] eqn:Ed.
+  - intros [<-|H].
+    + exists r. assert (Ei: r_init r = true) by (unfold digest_field in Ed; destruct (r_init r); [reflexivity|discriminate]).
+      split; [left; reflexivity|]. split; [exact Ei|]. split; [exact Ed|].
+      unfold digest_field in Ed. rewrite Ei in Ed. inversion Ed; subst; simpl.
+      split; [reflexivity|]. split; [reflexivity|].
+      destruct (r_def r); split; try (intros H; exfalso; apply H; reflexivity); try (intros [v Hv]; discriminate); eauto.
+    + destruct (IH H) as [r' [A B]]. exists r'. split; [right; exact A|exact B].
+  - intros H. destruct (IH H) as [r' [A B]]. exists r'. split; [right; exact A|exact B].
+Qed.
+
+(* ---- overridden serialization: what the rewriting does ---- *)
+Lemma resolve_ty_noop t : resolve_ty [] [] t = t.
+Proof.
+  induction t using ty_ind'; try reflexivity; cbn [resolve_ty table_ov tykey apply_ov first_ser lookup]; try (rewrite IHt; reflexivity).
+  all: f_equal; induction H as [|x r Hx Hr IH]; simpl; [reflexivity|rewrite Hx; f_equal; exact IH].
+Qed.
+
+(* third-party classes are eliminated when every one of them is covered by a serializing strategy whose replacement is supported *)
+Fixpoint covered (dial conf: list (string * ov)) (t: ty) : bool :=
+  match apply_ov (table_ov dial conf t) t with
+  | Some t' => ty_ok t'
+  | None =>
+    match t with
+    | TList a | TSet a | TDict a | TWrap a => covered dial conf a
+    | TTuple ts => forallb (covered dial conf) ts
+    | TUnion ts => match ts with [] => false | _ => forallb (covered dial conf) ts end
+    | TNamed _ n ts _ | TTyped n ts _ => str_nodup n && Nat.eqb (List.length n) (List.length ts) && forallb (covered dial conf) ts
+    | TOpaque _ => false
+    | _ => ty_ok t
+    end
+  end.
+
+Lemma forallb_map_ok dial conf ts :
+  Forall (fun t => covered dial conf t = true -> ty_ok (resolve_ty dial conf t) = true) ts ->
+  forallb (covered dial conf) ts = true -> forallb ty_ok (map (resolve_ty dial conf) ts) = true.
+Proof.
+  induction 1 as [|x r Hx Hr IH]; simpl; [reflexivity|]. intros H. apply andb_true_iff in H. destruct H as [H1 H2].
+  rewrite (Hx H1), (IH H2). reflexivity.
+Qed.
+
+Theorem covered_ok dial conf t : covered dial conf t = true -> ty_ok (resolve_ty dial conf t) = true.
+Proof.
+  induction t using ty_ind'; intros Hc; cbn [covered resolve_ty] in *;
+    destruct (apply_ov (table_ov dial conf _) _) as [t'|] eqn:Ea; try exact Hc; try (cbn [ty_ok]; apply IHt; exact Hc).
+  - (* tuple *) rewrite ty_ok_tuple. apply forallb_map_ok; assumption.
+  - (* union *) rewrite ty_ok_union. destruct ts as [|t0 tr]; [discriminate|].
+    cbn [map]. apply (forallb_map_ok dial conf (t0 :: tr)); assumption.
+  - (* named *) rewrite ty_ok_named. apply andb_true_iff in Hc. destruct Hc as [Hg Hc].
+    rewrite map_length, Hg. apply forallb_map_ok; assumption.
+  - (* typed *) rewrite ty_ok_typed. apply andb_true_iff in Hc. destruct Hc as [Hg Hc].
+    rewrite map_length, Hg. apply forallb_map_ok; assumption.
 Qed.
